@@ -11,8 +11,16 @@ package fasthttp
 // ConnsCount() == 0 / no open connection once everything is closed.
 
 import (
+	"crypto/ecdsa"
+	"crypto/elliptic"
+	crand "crypto/rand"
+	"crypto/tls"
+	"crypto/x509"
+	"crypto/x509/pkix"
 	"errors"
 	"fmt"
+	"io"
+	"math/big"
 	"math/rand"
 	"net"
 	"os"
@@ -25,6 +33,72 @@ import (
 )
 
 var c18ErrDial = errors.New("c18: injected dial error")
+
+// c18Raw is the raw (pre-TLS) connection a TLS host client gets from Dial: the client end of a net.Pipe
+// whose other end is played by a scripted peer (handshakes, sends garbage, stays silent, hangs up).
+type c18Raw struct {
+	net.Conn
+	id     int
+	tag    any
+	closes atomic.Int32
+	gone   chan struct{}
+	rec    *c18Rec
+}
+
+func (c *c18Raw) Close() error {
+	if c.closes.Add(1) == 1 {
+		c.rec.netCloseID(c.id) // "log before acting": the connection still counts as open here
+		close(c.gone)
+	}
+	return c.Conn.Close()
+}
+
+// c18Info identifies one of the harness' connections (plain scripted, raw, or the tls.Conn fasthttp
+// wrapped around a raw one): owner tag, id, number of Close calls so far.
+func c18Info(conn net.Conn) (tag any, id, closes int, ok bool) {
+	switch v := conn.(type) {
+	case *c18Conn:
+		if v == nil {
+			return nil, 0, 0, false
+		}
+		_, _, n := v.stats()
+		return v.tag, v.id, n, true
+	case *c18Raw:
+		if v == nil {
+			return nil, 0, 0, false
+		}
+		return v.tag, v.id, int(v.closes.Load()), true
+	case *tls.Conn:
+		if v == nil {
+			return nil, 0, 0, false
+		}
+		return c18Info(v.NetConn())
+	}
+	return nil, 0, 0, false
+}
+
+var (
+	c18CertOnce sync.Once
+	c18SrvTLS   *tls.Config
+)
+
+func c18ServerTLS() *tls.Config {
+	c18CertOnce.Do(func() {
+		key, err := ecdsa.GenerateKey(elliptic.P256(), crand.Reader)
+		if err != nil {
+			panic(err)
+		}
+		tmpl := &x509.Certificate{SerialNumber: big.NewInt(1), Subject: pkix.Name{CommonName: "c18.test"},
+			NotBefore: time.Now().Add(-time.Hour), NotAfter: time.Now().Add(24 * time.Hour),
+			DNSNames: []string{"c18.test"}, KeyUsage: x509.KeyUsageDigitalSignature, ExtKeyUsage: []x509.ExtKeyUsage{x509.ExtKeyUsageServerAuth}}
+		der, err := x509.CreateCertificate(crand.Reader, tmpl, tmpl, &key.PublicKey, key)
+		if err != nil {
+			panic(err)
+		}
+		c18SrvTLS = &tls.Config{Certificates: []tls.Certificate{{Certificate: [][]byte{der}, PrivateKey: key}}}
+	})
+	return c18SrvTLS
+}
 
 type c18Who struct {
 	k  string
@@ -63,7 +137,8 @@ type c18Rec struct {
 	dialFail int // percent
 	dialDur  int // max microseconds
 	closeDur int // max microseconds a net.Conn.Close takes (slow close: TLS close_notify, ...)
-	conns    []*c18Conn
+	conns    []net.Conn // every connection Dial has returned (also those whose TLS handshake failed later)
+	tlsMode  int        // 0: plain; 1: IsTLS, handshake inside the dial (WriteTimeout > 0); 2: IsTLS, lazy handshake
 	srvMode  func(c *c18Conn, req []byte)
 }
 
@@ -90,19 +165,14 @@ func (r *c18Rec) connID(o any) (int, bool) {
 		if v == nil {
 			return 0, true
 		}
-		if c, ok := v.c.(*c18Conn); ok && c.tag == r {
-			return c.id, true
-		}
-		return 0, false
-	case *c18Conn:
-		if v == nil {
-			return 0, true
-		}
-		if v.tag == r {
-			return v.id, true
+		if tag, id, _, ok := c18Info(v.c); ok && tag == r {
+			return id, true
 		}
 		return 0, false
 	case net.Conn:
+		if tag, id, _, ok := c18Info(v); ok && tag == r {
+			return id, true
+		}
 		return 0, false
 	}
 	return 0, false
@@ -297,24 +367,66 @@ func (r *c18Rec) dial(addr string) (net.Conn, error) {
 		time.Sleep(time.Duration(d) * time.Microsecond)
 	}
 	r.dmu.Lock()
-	defer r.dmu.Unlock()
 	r.dialing--
 	if fail {
+		r.dmu.Unlock()
 		return nil, c18ErrDial
 	}
 	r.nconn++
 	r.live++
-	c := c18NewConn(r.nconn)
-	c.tag = r
-	c.onReq = r.srvMode
-	c.onClose = r.netClose
-	r.conns = append(r.conns, c)
-	return c, nil
+	id := r.nconn
+	var conn net.Conn
+	if r.tlsMode != 0 {
+		conn = r.rawConn(id)
+	} else {
+		c := c18NewConn(id)
+		c.tag = r
+		c.onReq = r.srvMode
+		c.onClose = func(c *c18Conn) { r.netCloseID(c.id) }
+		conn = c
+	}
+	r.conns = append(r.conns, conn)
+	r.dmu.Unlock()
+	if r.tlsMode != 0 {
+		r.mu.Lock()
+		r.emit(vfRec{"ev": "hc.rawdial", "c": id})
+		r.mu.Unlock()
+	}
+	return conn, nil
 }
 
-func (r *c18Rec) netClose(c *c18Conn) {
+// rawConn makes the raw connection of a TLS dial and starts its scripted peer.
+func (r *c18Rec) rawConn(id int) *c18Raw {
+	cl, peer := net.Pipe()
+	c := &c18Raw{Conn: cl, id: id, tag: r, gone: make(chan struct{}), rec: r}
+	r.jmu.Lock()
+	k := r.jitter.Intn(100)
+	r.jmu.Unlock()
+	go func() {
+		defer peer.Close()
+		switch {
+		case k < 64: // a TLS server: handshake, then swallow whatever comes until the client hangs up
+			srv := tls.Server(peer, c18ServerTLS())
+			srv.SetDeadline(time.Now().Add(10 * time.Second))
+			if srv.Handshake() == nil {
+				io.Copy(io.Discard, srv)
+			}
+		case k < 78: // not a TLS server: answers the ClientHello with garbage
+			buf := make([]byte, 2048)
+			peer.SetDeadline(time.Now().Add(10 * time.Second))
+			peer.Read(buf)
+			peer.Write([]byte("HTTP/1.1 400 Bad Request\r\nConnection: close\r\n\r\n"))
+		case k < 92: // accepts and never says anything: the client's handshake can only time out
+			<-c.gone
+		default: // hangs up at once
+		}
+	}()
+	return c
+}
+
+func (r *c18Rec) netCloseID(id int) {
 	r.mu.Lock()
-	r.emit(vfRec{"ev": "hc.netclose", "c": c.id})
+	r.emit(vfRec{"ev": "hc.netclose", "c": id})
 	r.mu.Unlock()
 	// a Close may take a while; the connection counts as open until it has returned
 	if r.closeDur > 0 {
@@ -350,6 +462,8 @@ type c18Cfg struct {
 	closeDur               int // max microseconds for net.Conn.Close
 	janitor                int // CloseIdleConnections calls issued by an extra goroutine while the workers run
 	stage                  bool // begin with the directed trim-vs-release replay (needs MaxConns >= 4)
+	tlsMode                int  // 0 plain; 1 IsTLS with WriteTimeout (handshake inside the dial); 2 IsTLS, lazy handshake
+	tlsVerify              bool // the client verifies the (self-signed) certificate: every handshake fails
 }
 
 type c18Exec struct {
@@ -362,7 +476,7 @@ var c18RespClose = []byte("HTTP/1.1 200 OK\r\nConnection: close\r\nContent-Lengt
 
 func c18RunOne(rng *rand.Rand, cfg c18Cfg) (ex c18Exec, key, detail string) {
 	rec := &c18Rec{gidReq: map[uint64]int{}, gidCtx: map[uint64]c18Who{}, wid: map[*wantConn]int{},
-		jitter: rand.New(rand.NewSource(rng.Int63())), maxConns: cfg.maxConns, dialFail: cfg.dialFail, dialDur: cfg.dialDur, closeDur: cfg.closeDur}
+		jitter: rand.New(rand.NewSource(rng.Int63())), maxConns: cfg.maxConns, dialFail: cfg.dialFail, dialDur: cfg.dialDur, closeDur: cfg.closeDur, tlsMode: cfg.tlsMode}
 	var srvMu sync.Mutex
 	srvRng := rand.New(rand.NewSource(rng.Int63()))
 	rec.srvMode = func(c *c18Conn, req []byte) {
@@ -388,6 +502,14 @@ func c18RunOne(rng *rand.Rand, cfg c18Cfg) (ex c18Exec, key, detail string) {
 		MaxConnWaitTimeout:  cfg.wait,
 		MaxIdleConnDuration: cfg.idleDur,
 	}
+	if cfg.tlsMode != 0 {
+		hc.IsTLS = true
+		hc.Addr = "c18.test:443"
+		hc.TLSConfig = &tls.Config{InsecureSkipVerify: !cfg.tlsVerify}
+		if cfg.tlsMode == 1 {
+			hc.WriteTimeout = 80 * time.Millisecond // handshake inside the dial, bounded by this
+		}
+	}
 	hc.ConnPoolStrategy = FIFO
 	if cfg.lifo {
 		hc.ConnPoolStrategy = LIFO
@@ -404,9 +526,9 @@ func c18RunOne(rng *rand.Rand, cfg c18Cfg) (ex c18Exec, key, detail string) {
 		}
 		vmu.Unlock()
 	}
-	var lentFlags sync.Map // *c18Conn -> *atomic.Int32
-	flagOf := func(c *c18Conn) *atomic.Int32 {
-		v, _ := lentFlags.LoadOrStore(c, new(atomic.Int32))
+	var lentFlags sync.Map // connection id -> *atomic.Int32
+	flagOf := func(id int) *atomic.Int32 {
+		v, _ := lentFlags.LoadOrStore(id, new(atomic.Int32))
 		return v.(*atomic.Int32)
 	}
 	const slack = 5 * time.Second
@@ -421,25 +543,25 @@ func c18RunOne(rng *rand.Rand, cfg c18Cfg) (ex c18Exec, key, detail string) {
 		sigMu.Unlock()
 	}
 	// checkLent inspects a connection AcquireConn just handed out; false = do not touch it any further
-	checkLent := func(cc *clientConn) (*c18Conn, *atomic.Int32, bool) {
+	checkLent := func(cc *clientConn) (int, *atomic.Int32, bool) {
 		if cc == nil {
 			viol("acquire-nil-conn", "AcquireConn returned nil connection and nil error")
-			return nil, nil, false
+			return 0, nil, false
 		}
 		if cc.c == nil {
 			viol("recycled-conn-lent", "AcquireConn handed out a clientConn that had already been closed and recycled (its net.Conn is nil)")
-			return nil, nil, false
+			return 0, nil, false
 		}
-		fc := cc.c.(*c18Conn)
-		fl := flagOf(fc)
+		_, id, closes, _ := c18Info(cc.c)
+		fl := flagOf(id)
 		if !fl.CompareAndSwap(0, 1) {
-			viol("double-lend", fmt.Sprintf("connection %d handed out while another caller still owns it", fc.id))
+			viol("double-lend", fmt.Sprintf("connection %d handed out while another caller still owns it", id))
 		}
-		if _, _, closes := fc.stats(); closes > 0 {
-			viol("closed-conn-lent", fmt.Sprintf("connection %d handed out after the client closed it", fc.id))
-			return fc, fl, false
+		if closes > 0 {
+			viol("closed-conn-lent", fmt.Sprintf("connection %d handed out after the client closed it", id))
+			return id, fl, false
 		}
-		return fc, fl, true
+		return id, fl, true
 	}
 	// Directed replay (hook gate): the pool is trimmed (CloseIdleConnections has taken >= 2 idle connections
 	// and is held before its first CloseConn) while two owners give their connections back.
@@ -559,7 +681,7 @@ func c18RunOne(rng *rand.Rand, cfg c18Cfg) (ex c18Exec, key, detail string) {
 						viol("acquire-late", fmt.Sprintf("AcquireConn returned after %v (wait limit %v)", el, limit))
 					}
 					if err != nil {
-						if err != ErrNoFreeConns && err != ErrTimeout && err != c18ErrDial {
+						if err != ErrNoFreeConns && err != ErrTimeout && err != c18ErrDial && cfg.tlsMode == 0 {
 							viol("acquire-unexpected-error", err.Error())
 						}
 						if cfg.wait <= 0 && err == ErrTimeout {
@@ -570,6 +692,13 @@ func c18RunOne(rng *rand.Rand, cfg c18Cfg) (ex c18Exec, key, detail string) {
 					_, fl, lentOK := checkLent(cc)
 					if !lentOK {
 						continue
+					}
+					hsFailed := false
+					if tc, ok := cc.c.(*tls.Conn); ok && cfg.tlsMode == 2 && wrng.Intn(2) == 0 {
+						// first use of a lazily wrapped connection: the handshake happens now
+						tc.SetDeadline(time.Now().Add(60 * time.Millisecond))
+						hsFailed = tc.Handshake() != nil
+						tc.SetDeadline(time.Time{})
 					}
 					if cfg.janitor > 0 && wrng.Intn(100) < 50 {
 						select { // hold the connection until somebody trims the pool
@@ -583,7 +712,7 @@ func c18RunOne(rng *rand.Rand, cfg c18Cfg) (ex c18Exec, key, detail string) {
 						time.Sleep(time.Duration(wrng.Intn(cfg.holdMax)) * time.Microsecond)
 					}
 					fl.Store(0)
-					if wrng.Intn(100) < 70 {
+					if wrng.Intn(100) < 70 && !hsFailed {
 						hc.ReleaseConn(cc)
 					} else {
 						hc.CloseConn(cc)
@@ -655,10 +784,8 @@ func c18RunOne(rng *rand.Rand, cfg c18Cfg) (ex c18Exec, key, detail string) {
 	for _, pc := range hc.conns {
 		if pc == nil || pc.c == nil {
 			viol("closed-conn-pooled", "the idle pool holds a clientConn that was closed and recycled (nil net.Conn)")
-		} else if fc, ok := pc.c.(*c18Conn); ok {
-			if _, _, closes := fc.stats(); closes > 0 {
-				viol("closed-conn-pooled", fmt.Sprintf("the idle pool holds connection %d, which the client has already closed", fc.id))
-			}
+		} else if _, id, closes, ok := c18Info(pc.c); ok && closes > 0 {
+			viol("closed-conn-pooled", fmt.Sprintf("the idle pool holds connection %d, which the client has already closed", id))
 		}
 	}
 	hc.connsLock.Unlock()
@@ -688,12 +815,12 @@ func c18RunOne(rng *rand.Rand, cfg c18Cfg) (ex c18Exec, key, detail string) {
 	if rec.overKey != "" {
 		viol(rec.overKey, rec.overMsg)
 	}
-	all := append([]*c18Conn(nil), rec.conns...)
+	all := append([]net.Conn(nil), rec.conns...)
 	rec.dmu.Unlock()
 	// everything is closed and nothing is pending: every dialled connection was closed exactly once
 	for _, fc := range all {
-		if _, _, closes := fc.stats(); closes != 1 {
-			viol("conn-close-count", fmt.Sprintf("connection %d was closed %d times by the client (want exactly once; 0 = left open but not counted)", fc.id, closes))
+		if _, id, closes, _ := c18Info(fc); closes != 1 {
+			viol("conn-close-count", fmt.Sprintf("connection %d returned by Dial was closed %d times by the client (want exactly once; 0 = left open, also when its TLS handshake failed)", id, closes))
 		}
 	}
 	return finish(), key, detail
@@ -727,7 +854,12 @@ func TestVerifC18Pool(t *testing.T) {
 				dialFail: []int{0, 0, 20, 45}[rng.Intn(4)], dialDur: []int{0, 200, 600}[rng.Intn(3)],
 				idleDur: []time.Duration{time.Millisecond, 3 * time.Millisecond, 300 * time.Millisecond}[rng.Intn(3)],
 				holdMax: []int{0, 300, 1500}[rng.Intn(3)], doPct: []int{0, 30, 60}[rng.Intn(3)],
-				closeDur: []int{0, 300, 900}[rng.Intn(3)], janitor: []int{0, 3, 8}[rng.Intn(3)], stage: rng.Intn(2) == 0}
+				closeDur: []int{0, 300, 900}[rng.Intn(3)], janitor: []int{0, 3, 8}[rng.Intn(3)], stage: rng.Intn(2) == 0,
+				tlsMode: []int{0, 0, 0, 0, 0, 1, 1, 2}[rng.Intn(8)]}
+			if cfg.tlsMode != 0 {
+				cfg.doPct = 0 // the scripted TLS peers do not speak HTTP
+				cfg.tlsVerify = rng.Intn(6) == 0
+			}
 			if cfg.workers <= maxc {
 				cfg.workers = maxc + 1 + rng.Intn(2)
 			}
